@@ -33,12 +33,12 @@ def run(ctx):
     }
     for m, (cache_ops, store_ops) in pairs.items():
         f = repo.func(UT, f"{CL}.{m}")
-        body = [A.norm(s) for s in f.node.body]
+        body = [A.norm(s) for s in A.body(f.node)]
         ok = all(o in body for o in cache_ops + store_ops) and len(body) == 2
         ctx.ob("C43.D1-write-through", cname(f, None, f"{cache_ops[0]} and {store_ops[0]}"), ok,
                "" if ok else f"body is {body}: the cache and the persistent mapping diverge", nontrivial=True, where=where(f, f.node))
     f = repo.func(UT, f"{CL}.popitem")
-    body = [A.norm(s) for s in f.node.body]
+    body = [A.norm(s) for s in A.body(f.node)]
     ok = body == ["key, value = self._cache.popitem()", "del self._func[key]", "return (key, value)"] or body == ["(key, value) = self._cache.popitem()", "del self._func[key]", "return (key, value)"]
     ctx.ob("C43.D1-write-through", cname(f, None, "popitem removes the same key from the persistent mapping"), ok, "" if ok else f"body is {body}", nontrivial=True, where=where(f, f.node))
     # closed world: who mutates self._cache / self._func
@@ -56,7 +56,7 @@ def run(ctx):
                 ctx.ob("C43.D1-cache-writers", cname(fn, s), ok, "" if ok else "the persistent mapping is written from an unexpected method", where=where(fn, s))
     ctx.expect("C43.D1-cache-writers", 7)
     g = repo.func(UT, f"{CL}.__getitem__")
-    ok = [A.norm(s) for s in g.node.body] == ["return self._cache[key]"]
+    ok = [A.norm(s) for s in A.body(g.node)] == ["return self._cache[key]"]
     ctx.ob("C43.D1-write-through", cname(g, None, "reads come from the cache"), ok, "" if ok else "read path changed", where=where(g, g.node))
     it = repo.func(UT, f"{CL}.__iter__")
     ok = "self._cache" in A.norm(it.node)
@@ -65,10 +65,10 @@ def run(ctx):
     ctx.ob("C43.D1-write-through", cname(it, None, "iteration / len over the cache"), ok, "" if ok else "iteration source changed", where=where(it, it.node))
     fl = repo.func(UT, f"{CL}.flush")
     loops = [s for s in fl.node.body if isinstance(s, ast.For)]
-    ok = len(loops) == 1 and A.norm(loops[0].iter) == "self.items()" and [A.norm(x) for x in loops[0].body] == ["self._func[k] = v"]
+    ok = len(loops) == 1 and A.norm(loops[0].iter) == "self.items()" and [A.norm(x) for x in A.body(loops[0].body)] == ["self._func[k] = v"]
     ctx.ob("C43.D1-write-through", cname(fl, None, "flush rewrites every item (picks up in-place mutation of values)"), ok, "" if ok else "flush skips items", where=where(fl, fl.node))
     rl = repo.func(UT, f"{CL}.reload")
-    ok = [A.norm(s) for s in rl.node.body if not (isinstance(s, ast.Expr) and isinstance(s.value, ast.Constant))] == ["self._cache = dict(self._func.items())"]
+    ok = [A.norm(s) for s in A.body(rl.node)] == ["self._cache = dict(self._func.items())"]
     ctx.ob("C43.D1-write-through", cname(rl, None, "reload = everything in the persistent mapping"), ok, "" if ok else "reload changed", where=where(rl, rl.node))
     init = repo.func(UT, f"{CL}.__init__")
     t = A.norm(init.node)
